@@ -3,7 +3,9 @@ package main
 import (
 	"fmt"
 	"go/token"
+	"go/types"
 
+	"golang.org/x/tools/go/callgraph"
 	"golang.org/x/tools/go/ssa"
 )
 
@@ -92,6 +94,49 @@ func ruleMarkRollback(c *Ctx, r *Report) {
 			for _, d := range deletes {
 				if d.field == ins.field {
 					dels = append(dels, d)
+				}
+			}
+			if ins.fn == top {
+				gkey := fmt.Sprintf("%s/VM.%s/guard", fname(top), ins.field)
+				// a memoising insertion (the same map is looked up in this function) is also the re-entrancy
+				// guard: it precedes every call that runs goals (statically reaches the trampoline), because a
+				// goal may call this function again (a file that loads itself)
+				lookedUp := false
+				eachInstr(top, func(in ssa.Instruction) {
+					if lk, ok := in.(*ssa.Lookup); ok && lk.CommaOk && c.vmFieldOfMap(lk.X) == ins.field {
+						lookedUp = true
+					}
+				})
+				var late ssa.Instruction
+				nre := 0
+				if lookedUp {
+					eachInstr(top, func(in ssa.Instruction) {
+						ci, ok := in.(ssa.CallInstruction)
+						if !ok {
+							return
+						}
+						callee := ci.Common().StaticCallee()
+						if callee == nil || !c.isLibPkg(funcPkg(callee)) {
+							return
+						}
+						if tr := c.trampoline(); tr == nil || !c.staticallyReaches(callee, tr) {
+							return
+						}
+						nre++
+						ib, mb := in.Block(), ins.in.Block()
+						dominated := (ib == mb && instrIndex(ins.in) < instrIndex(in)) || (ib != mb && mb.Dominates(ib))
+						if !dominated && late == nil {
+							late = in
+						}
+					})
+				}
+				if nre > 0 {
+					n++
+					if late != nil {
+						r.bad(rule, gkey, c.at(late), "the memoising mark precedes every call that runs goals (re-entrancy guard)", "this call runs goals and is not dominated by the insertion into VM."+ins.field+": a file that loads itself recurses until the Go stack is exhausted (fatal, not recoverable)")
+					} else {
+						r.ok(rule, gkey, c.at(ins.in), "the memoising mark precedes every call that runs goals (re-entrancy guard)", fmt.Sprintf("%d goal-running call(s), each dominated by the insertion", nre), true)
+					}
 				}
 			}
 			if len(dels) == 0 || ins.fn != top {
@@ -193,4 +238,113 @@ func ruleMarkRollback(c *Ctx, r *Report) {
 		}
 	}
 	r.analysed(rule, fmt.Sprintf("%d mark/un-mark protocols on VM maps", n))
+}
+
+// ---------------------------------------------------------------------------
+// R-GROUP-ALL (C11; added after seed C11c): bagof/3 and setof/3 offer one alternative per witness group.
+// In the grouping loop of their common implementation every iteration reaches the append of an
+// alternative; no group is dropped by a test made beforehand (a "quick reject by length" is wrong for
+// setof/3, whose aggregate removes duplicates).
+
+func ruleGroupAll(c *Ctx, r *Report) {
+	const rule = "R-GROUP-ALL"
+	fn := c.fn("collectionOf")
+	if fn == nil {
+		r.undecided(rule, "anchor:collectionOf", "-", "locate collectionOf", "not found")
+		return
+	}
+	desc := "every witness group produced by the grouping loop becomes an alternative"
+	n := 0
+	for _, f := range withAnon(fn) {
+		eachInstr(f, func(in ssa.Instruction) {
+			call, ok := in.(*ssa.Call)
+			if !ok {
+				return
+			}
+			b, ok := call.Call.Value.(*ssa.Builtin)
+			if !ok || b.Name() != "append" || len(call.Call.Args) != 2 {
+				return
+			}
+			// appending a thunk (func(context.Context) *Promise) to the list of alternatives
+			sl, ok := call.Call.Args[0].Type().Underlying().(*types.Slice)
+			if !ok {
+				return
+			}
+			sig, ok := sl.Elem().Underlying().(*types.Signature)
+			if !ok || sig.Params().Len() != 1 || !isContextType(sig.Params().At(0).Type()) {
+				return
+			}
+			n++
+			key := fmt.Sprintf("%s/alternatives#%d", fname(f), n)
+			found, skips := loopIterationSkips(f, call.Block(), map[*ssa.BasicBlock]bool{call.Block(): true})
+			switch {
+			case !found:
+				r.bad(rule, key, c.at(in), desc, "the append of the alternative is not inside the grouping loop")
+			case skips:
+				r.bad(rule, key, c.at(in), desc, "an iteration of the grouping loop can return to the loop header without appending its alternative: that witness group is never offered")
+			default:
+				r.ok(rule, key, c.at(in), desc, "node-removal check: without the appending block the body entry cannot reach the back edge", true)
+			}
+		})
+	}
+	if n == 0 {
+		r.bad(rule, fname(fn)+"/alternatives", c.Pos(fn.Pos()), desc, "no append of an alternative found")
+	}
+	r.analysed(rule, fname(fn))
+}
+
+// reachesFn: can `to` be reached from `from` in the call graph?
+func (c *Ctx) reachesFn(cg *callgraph.Graph, from, to *ssa.Function) bool {
+	start := cg.Nodes[from]
+	if start == nil {
+		return false
+	}
+	seen := map[*callgraph.Node]bool{}
+	st := []*callgraph.Node{start}
+	for len(st) > 0 {
+		n := st[len(st)-1]
+		st = st[:len(st)-1]
+		if seen[n] {
+			continue
+		}
+		seen[n] = true
+		if n.Func == to {
+			return true
+		}
+		for _, e := range n.Out {
+			st = append(st, e.Callee)
+		}
+	}
+	return false
+}
+
+// staticallyReaches: `to` is reachable from `from` over static calls and the closures created on the way.
+func (c *Ctx) staticallyReaches(from, to *ssa.Function) bool {
+	seen := map[*ssa.Function]bool{}
+	st := []*ssa.Function{from}
+	for len(st) > 0 {
+		f := st[len(st)-1]
+		st = st[:len(st)-1]
+		if f == nil || seen[f] {
+			continue
+		}
+		seen[f] = true
+		if f == to {
+			return true
+		}
+		if f.Blocks == nil {
+			continue
+		}
+		eachInstr(f, func(in ssa.Instruction) {
+			switch x := in.(type) {
+			case ssa.CallInstruction:
+				if cal := x.Common().StaticCallee(); cal != nil {
+					st = append(st, cal)
+				}
+			case *ssa.MakeClosure:
+				st = append(st, x.Fn.(*ssa.Function))
+			}
+		})
+	}
+	return false
 }
